@@ -207,7 +207,8 @@ def r16_2(cx):
     # `.ok()` or the same thing spelled as a match: the index returned is the Ok payload of that one search, untouched
     bss = list(r.calls('binary_search_by'))
     bs = bss[0] if len(bss) == 1 else None
-    okb = bs is not None and any(m.is_items(n) for n in bs.args[0].walk()) \
+    # (the deque searched is self.items, or a parameter of a lookup helper that takes the items explicitly)
+    okb = bs is not None and (any(m.is_items(n) for n in bs.args[0].walk()) or _items_param(cx, fi, bs.args[0], m)) \
         and not any(c.op.rsplit('::', 1)[-1] in ('index', 'split_at', 'get', 'rev', 'skip', 'take') for c in bs.args[0].calls()) \
         and not any(n.kind == 'binop' for n in r.walk()) and all(c.op.rsplit('::', 1)[-1] in ('ok', 'binary_search_by', 'deref', 'branch') for c in r.calls()) \
         and len(list(fi.calls())) <= 3
@@ -226,6 +227,19 @@ def r16_2(cx):
             ok = True
     filt = [cs for cs in it.calls('filter')]
     cx.check(ok and bool(filt), 'iter-filter', it, None, 'iter() = items.iter().filter(|x| !is_erased(x))', fail_detail='iter does not filter erased items')
+
+
+def _items_param(cx, fi, recv, m):
+    """find_index as an associated function taking the deque explicitly: the receiver of the search is a SlidingDeque
+    parameter as it stands, and every caller passes self.items for it."""
+    ps = recv.params()
+    if len(ps) != 1 or any(n.kind == 'proj' and n.op == 'field' for n in recv.walk()):
+        return False
+    p = next(iter(ps))
+    if 'SlidingDeque<' not in fi.locals[p] or 'SortedDeque<' in fi.locals[p]:
+        return False
+    sites = [c for f in cx.prog.fns.values() for c in f.calls(fi)]
+    return bool(sites) and all(any(m.is_items(n) for n in c.arg(p - 1).walk()) for c in sites)
 
 
 def m_erased(e):
